@@ -2041,3 +2041,19 @@ Lemma qualifiers_resolve c env q :
 Proof.
   unfold resolve_ok. destruct (lookup q env) as [[? ?]|]; [discriminate|]. rewrite smem_In. tauto.
 Qed.
+
+(* ================================================================== generated parameter names *)
+Definition ends_with (s suf : str) : bool := has_prefix (rev s) (rev suf).
+Lemma ends_with_app a suf : ends_with (a ++ suf) suf = true.
+Proof. unfold ends_with. rewrite rev_app_distr. apply has_prefix_spec. eauto. Qed.
+
+(* a generated name is never one of the reserved identifiers: in particular never `mock` or `callInfo`, the
+   receiver and the local of the matryer template (and the qualifier of the testify template) *)
+Lemma gen_name_not_reserved tn : smem (gen_name tn) reserved_names = false.
+Proof.
+  unfold gen_name. set (n := if seqb tn (L "error") then _ else _).
+  destruct (smem n reserved_names) eqn:E; [|exact E].
+  assert (forallb (fun r => negb (ends_with r (L "Param"))) reserved_names = true) as F by (vm_compute; reflexivity).
+  apply smem_false. intros H. rewrite forallb_forall in F. specialize (F _ H).
+  rewrite ends_with_app in F. discriminate.
+Qed.
